@@ -118,6 +118,22 @@ func TestPropOneLiners(t *testing.T) {
 	rec.ClassN("one-line family (enumerated completely)", n)
 }
 
+// TestPropLayouts enumerates the layout family completely: expressions, parameter lists, statement
+// heads and attribute lists with every placement of blanks and line breaks between their tokens.
+func TestPropLayouts(t *testing.T) {
+	shard, shards := ev.Shard()
+	gaps := oneline.QuickGaps
+	if ev.Thorough() {
+		gaps = oneline.ThoroughGaps
+	}
+	n := 0
+	oneline.EachLayout(shard, shards, gaps, func(name, src string) {
+		n++
+		check(t, src, name+": ")
+	})
+	rec.ClassN("layout family (enumerated completely)", n)
+}
+
 func TestPropGenerated(t *testing.T) {
 	g := tgen.GenFile(tgen.DefaultOptions)
 	rapid.Check(t, func(t *rapid.T) {
